@@ -357,6 +357,15 @@ def run(ck):
             if m_:
                 # (inside an expanded helper the local carries the helper's name as a suffix: take the resolved root)
                 endv = c["args"][1].get("root") or c["args"][1].get("v") or m_.group(1)
+        # ... and the text that is converted ends at the line terminator: the conversion is reached on the edge on which eol() is true
+        # (from the mutation sweep: the scan loop's condition negated survives the suite -- no test parses a chunked message)
+        eolt = lib.result_edges(g, "Pistache::StreamCursor::eol", True)
+        for c in conv[:1]:
+            oke = bool(eolt) and any(cfg.edge_dominates(g, bid, k, c) for bid, k in eolt)
+            ck.ob("C03-R6", "Chunk::parse/size-text-ends-at-CRLF", oke, c.loc, g,
+                  "the size is converted on the edge on which cursor.eol() is true" if oke else
+                  "the chunk-size text is converted on a path that does not know the cursor stands on the CRLF behind it: the token is cut "
+                  "somewhere else and every size line is misread")
         if endv:
             moved = [(b.id, k) for b in g.blocks.values() if b.term and len(b.succs) == 2 for k in (0, 1) if b.succs[k] is not None
                      and lib.edge_establishes(b.term, k, endv, ("!=", ">"))]
